@@ -1,6 +1,9 @@
 import Carquet.Util
 import Carquet.Spec.Kernels
 import Carquet.Impl.Simd
+import Carquet.Impl.SimdMore
+import Carquet.Impl.SimdBitunpack
+import Carquet.Impl.SimdRegistry
 import Carquet.Impl.Dispatch
 /-
 Driver ops for C15 (harness/ops_simd.c).
@@ -13,8 +16,14 @@ Driver ops for C15 (harness/ops_simd.c).
 unless a `d_<variant>` field says otherwise.
 property checks : every variant's result equals `Spec.Kernels` (inside the kernel's domain);
                   dispatcher: the features required by every selected kernel are in the mask.
-model checks    : for the kernels modelled with intrinsics, `Impl.Simd` gives the variant's result;
+model checks    : `Impl.Simd` gives the result of every variant of every kernel (scalar fallbacks included);
                   dispatcher: `Impl.Dispatch.select` names the kernel the real table holds.
+
+  simd_gather_wide name= es= n= dom= cpu= idx=x.. | r_<variant>=x.. …  (indices on both sides of 2^31 against a
+      dictionary window inside a huge mapping; the element at signed offset o holds mix(o))
+      model checks: scalar / sse read the zero-extended offset, avx2 / avx512 the sign-extended one;
+      property check (dom=1 only: all indices < 2^31): every variant returns dict[idx[i]].
+  simd_coverage name= widths= | full= tail= multi= maxn= mis= [mc=]   (what the run covered; all counts must be > 0)
 -/
 namespace Driver.Ops.Simd
 open Carquet Carquet.Util
@@ -87,6 +96,7 @@ def evalKernel (name : String) (c : Case) : Option Eval :=
              | "sse" => some (.bytes (bytesOf (ssePrefixSumI32 init i32)))
              | "avx2" => some (.bytes (bytesOf (avx2PrefixSumI32 init i32)))
              | "avx512" => some (.bytes (bytesOf (avx512PrefixSumI32 init i32)))
+             | "scalar" => some (.bytes (bytesOf (scalarPrefixSum init i32)))
              | _ => none }
   | "prefix_sum_i64" =>
     let init := BitVec.ofInt 64 c.s1
@@ -95,17 +105,37 @@ def evalKernel (name : String) (c : Case) : Option Eval :=
              | "sse" => some (.bytes (bytesOf (ssePrefixSumI64 init i64)))
              | "avx2" => some (.bytes (bytesOf (avx2PrefixSumI64 init i64)))
              | "avx512" => some (.bytes (bytesOf (avx512PrefixSumI64 init i64)))
+             | "scalar" => some (.bytes (bytesOf (scalarPrefixSum init i64)))
              | _ => none }
   | "gather_i32" | "gather_float" =>
-    some { spec := (gather i32 ((valsOf 32 c.b).map (·.toNat))).map fun o => .bytes (bytesOf o) }
+    let idx := valsOf 32 c.b
+    let res (o : Option (List (BitVec 32))) : Option Res :=
+      match o with | some v => some (.bytes (bytesOf v)) | none => some (.int (-1))   -- model: read outside the dictionary
+    some { spec := (gather i32 (idx.map (·.toNat))).map fun o => .bytes (bytesOf o),
+           impl := fun isa => match isa with
+             | "scalar" => res (scalarGather (memOf i32) idx)
+             | "sse" => res (sseGather32 (memOf i32) idx)
+             | "avx2" => res (avx2Gather32 (memOf i32) idx)
+             | "avx512" => res (avx512Gather32 (memOf i32) idx)
+             | _ => none }
   | "gather_i64" | "gather_double" =>
-    some { spec := (gather i64 ((valsOf 32 c.b).map (·.toNat))).map fun o => .bytes (bytesOf o) }
+    let idx := valsOf 32 c.b
+    let res (o : Option (List (BitVec 64))) : Option Res :=
+      match o with | some v => some (.bytes (bytesOf v)) | none => some (.int (-1))
+    some { spec := (gather i64 (idx.map (·.toNat))).map fun o => .bytes (bytesOf o),
+           impl := fun isa => match isa with
+             | "scalar" => res (scalarGather (memOf i64) idx)
+             | "sse" => res (sseGather64 (memOf i64) idx)
+             | "avx2" => res (avx2Gather64 (memOf i64) idx)
+             | "avx512" => res (avx512Gather64 (memOf i64) idx)
+             | _ => none }
   | "bss_encode_float" =>
     some { spec := some (.bytes (bssEncode (k := 4) (valsOf 32 c.a))),
            impl := fun isa => match isa with
              | "sse" => some (.bytes (sseBssEncodeFloat i32))
              | "avx2" => some (.bytes (avx2BssEncodeFloat i32))
              | "avx512" => some (.bytes (avx512BssEncodeFloat i32))
+             | "scalar" => some (.bytes (scalarBssEncodeFloat i32))
              | _ => none }
   | "bss_decode_float" =>
     let n := c.n
@@ -115,15 +145,29 @@ def evalKernel (name : String) (c : Case) : Option Eval :=
              | "sse" => some (.bytes (bytesOf (sseBssDecodeFloat ts)))
              | "avx2" => some (.bytes (bytesOf (avx2BssDecodeFloat ts)))
              | "avx512" => some (.bytes (bytesOf (avx512BssDecodeFloat ts)))
+             | "scalar" => (scalarBssDecodeFloat n c.a).map fun o => .bytes (bytesOf o)
              | _ => none }
-  | "bss_encode_double" => some { spec := some (.bytes (bssEncode (k := 8) (valsOf 64 c.a))) }
-  | "bss_decode_double" => some { spec := (bssDecode 8 c.n c.a).map fun o => .bytes (bytesOf o) }
+  | "bss_encode_double" =>
+    some { spec := some (.bytes (bssEncode (k := 8) (valsOf 64 c.a))),
+           impl := fun isa => match isa with
+             | "scalar" => some (.bytes (scalarBssEncodeDouble i64))
+             | "sse" => some (.bytes (sseBssEncodeDouble i64))
+             | "avx2" => some (.bytes (avx2BssEncodeDouble i64))
+             | _ => none }
+  | "bss_decode_double" =>
+    some { spec := (bssDecode 8 c.n c.a).map fun o => .bytes (bytesOf o),
+           impl := fun isa => match isa with
+             | "scalar" => (scalarBssDecodeDouble c.n c.a).map fun o => .bytes (bytesOf o)
+             | "sse" => (sseBssDecodeDouble c.n c.a).map fun o => .bytes (bytesOf o)
+             | "avx2" => (avx2BssDecodeDouble c.n c.a).map fun o => .bytes (bytesOf o)
+             | _ => none }
   | "unpack_bools" =>
     some { spec := (unpackBools c.a c.n).map .bytes,
            impl := fun isa => match isa with
              | "sse" => some (.bytes (sseUnpackBools c.a c.n))
              | "avx2" => some (.bytes (avx2UnpackBools c.a c.n))
              | "avx512" => some (.bytes (avx512UnpackBools c.a c.n))
+             | "scalar" => (scalarUnpackBools c.a c.n).map .bytes
              | _ => none }
   | "pack_bools" =>
     some { spec := some (.bytes (packBools c.a)),
@@ -139,6 +183,7 @@ def evalKernel (name : String) (c : Case) : Option Eval :=
              | "sse" => some (.int (sseFindRunLength i32))
              | "avx2" => some (.int (avx2FindRunLength i32))
              | "avx512" => some (.int (avx512FindRunLength i32))
+             | "scalar" => some (.int (scalarFindRunLength i32))
              | _ => none }
   | "crc32c" =>
     let crc := BitVec.ofInt 32 c.s1
@@ -147,13 +192,24 @@ def evalKernel (name : String) (c : Case) : Option Eval :=
              | "sse" => some (.int (sseCrc32c crc c.a).toNat)
              | "scalar" => some (.int (scalarCrc32c Gen.Dispatch.crc32cTable crc c.a).toNat)
              | _ => none }
-  | "match_copy" => some { spec := some (.bytes (matchCopy c.a c.n)) }
-  | "match_length" => some { spec := some (.int (matchLength c.a c.s1.toNat)) }
+  | "match_copy" =>
+    some { spec := some (.bytes (matchCopy c.a c.n)),
+           impl := fun isa => match isa with
+             | "scalar" => some (.bytes (scalarMatchCopy c.a c.n))
+             | "sse" => some (.bytes (sseMatchCopy c.a c.n))
+             | _ => none }
+  | "match_length" =>
+    some { spec := some (.int (matchLength c.a c.s1.toNat)),
+           impl := fun isa => match isa with
+             | "scalar" => some (.int (scalarMatchLength c.a c.s1.toNat))
+             | "sse" => some (.int (sseMatchLength c.a c.s1.toNat))
+             | _ => none }
   | "count_non_nulls" =>
     let mx := BitVec.ofInt 16 c.s1
     some { spec := some (.int (countNonNulls i16 mx)),
            impl := fun isa => match isa with
              | "sse" => some (.int (sseCountNonNulls i16 mx))
+             | "scalar" => some (.int (scalarCountNonNulls i16 mx))
              | _ => none }
   | "build_null_bitmap" =>
     let mx := BitVec.ofInt 16 c.s1
@@ -167,19 +223,100 @@ def evalKernel (name : String) (c : Case) : Option Eval :=
     some { spec := some (.bytes (bytesOf (fillDefLevels c.n v))),
            impl := fun isa => match isa with
              | "sse" => some (.bytes (bytesOf (sseFillDefLevels (List.replicate c.n 0#16) v)))
+             | "scalar" => some (.bytes (bytesOf (scalarFillDefLevels (List.replicate c.n 0#16) v)))
              | _ => none }
-  | "memset" => some { spec := some (.bytes (memset c.n (UInt8.ofNat c.s1.toNat))) }
-  | "memcpy" => some { spec := some (.bytes (memcpy c.a)) }
+  | "memset" =>
+    let v := UInt8.ofNat c.s1.toNat
+    let old := List.replicate c.n (UInt8.ofNat c.junk)
+    some { spec := some (.bytes (memset c.n v)),
+           impl := fun isa => match isa with
+             | "sse" => some (.bytes (sseMemset old v))
+             | "avx2" => some (.bytes (avx2Memset old v))
+             | "avx512" => some (.bytes (avx512Memset old v))
+             | _ => none }
+  | "memcpy" =>
+    some { spec := some (.bytes (memcpy c.a)),
+           impl := fun isa => match isa with
+             | "sse" => some (.bytes (sseMemcpy c.a))
+             | "avx2" => some (.bytes (avx2Memcpy c.a))
+             | "avx512" => some (.bytes (avx512Memcpy c.a))
+             | _ => none }
   | _ =>
     -- bitunpack<N>_<w>bit
     if name.startsWith "bitunpack" then
       match ((name.drop 9).toString.splitOn "_") with
       | [ns, ws] =>
         match ns.toNat?, (ws.dropEnd 3).toString.toNat? with
-        | some nv, some w => some { spec := (bitUnpack w nv c.a).map fun o => .bytes (natsToBytes32 o) }
+        | some nv, some w =>
+          let m (f : List UInt8 → List (BitVec 32)) : Option Res := some (.bytes (bytesOf (f c.a)))
+          some { spec := (bitUnpack w nv c.a).map fun o => .bytes (natsToBytes32 o),
+                 impl := fun isa => match name, isa with
+                   | "bitunpack32_1bit", "sse" => m sseBitunpack32x1
+                   | "bitunpack8_4bit", "sse" => m sseBitunpack8x4
+                   | "bitunpack8_8bit", "sse" => m sseBitunpack8x8
+                   | "bitunpack64_1bit", "avx2" => m avx2Bitunpack64x1
+                   | "bitunpack16_4bit", "avx2" => m avx2Bitunpack16x4
+                   | "bitunpack16_8bit", "avx2" => m avx2Bitunpack16x8
+                   | "bitunpack8_16bit", "avx2" => m avx2Bitunpack8x16
+                   | "bitunpack32_8bit", "avx512" => m avx512Bitunpack32x8
+                   | "bitunpack16_16bit", "avx512" => m avx512Bitunpack16x16
+                   | "bitunpack32_4bit", "avx512" => m avx512Bitunpack32x4
+                   | _, _ => none }
         | _, _ => none
       | _ => none
     else none
+
+
+/-! the registry (`Impl/SimdRegistry.lean`: C function name -> model at the type of its table slot) is what
+the dispatcher theorem speaks about; its entries are executed here too, so that the binding of names to
+models is tied to the code, not only the models themselves -/
+
+def isaOfKernelName (kn : String) : String :=
+  if kn.startsWith "scalar_" then "scalar" else if kn.startsWith "carquet_sse_" then "sse"
+  else if kn.startsWith "carquet_avx2_" then "avx2" else if kn.startsWith "carquet_avx512_" then "avx512" else "unknown"
+
+open Impl.Dispatch in
+/-- the registry entry a variant of a table slot stands for: by kernel id for `dm` (what the dispatcher
+model selects under the line's capability mask), by (slot, instruction set) otherwise -/
+def registryEntry (l : Line) (slot : Option Nat) (v : String) : Option KernelModel :=
+  match slot with
+  | none => none
+  | some s =>
+    match Gen.Dispatch.slots[s]? with
+    | none => none
+    | some sn =>
+      if v == "dm" then
+        match l.inNat "cap" with
+        | some cap =>
+          (select cap s).bind fun k => (Gen.Dispatch.kernels[k]?).bind fun kn =>
+            registry.find? fun m => m.name == kn && m.slot.name == sn
+        | none => none
+      else registry.find? fun m => m.slot.name == sn && isaOfKernelName m.name == v
+
+open Impl.Dispatch in
+/-- run a registry entry on the inputs of a line -/
+def evalEntry (m : KernelModel) (c : Case) : Res :=
+  let ob {w : Nat} (o : Option (List (BitVec w))) : Res := match o with | some v => .bytes (bytesOf v) | none => .int (-1)
+  match m with
+  | ⟨.prefixSumI32, _, run⟩ => .bytes (bytesOf (run (BitVec.ofInt 32 c.s1, valsOf 32 c.a)))
+  | ⟨.prefixSumI64, _, run⟩ => .bytes (bytesOf (run (BitVec.ofInt 64 c.s1, valsOf 64 c.a)))
+  | ⟨.gatherI32, _, run⟩ => ob (run (valsOf 32 c.a, valsOf 32 c.b))
+  | ⟨.gatherFloat, _, run⟩ => ob (run (valsOf 32 c.a, valsOf 32 c.b))
+  | ⟨.gatherI64, _, run⟩ => ob (run (valsOf 64 c.a, valsOf 32 c.b))
+  | ⟨.gatherDouble, _, run⟩ => ob (run (valsOf 64 c.a, valsOf 32 c.b))
+  | ⟨.bssEncFloat, _, run⟩ => .bytes (run (valsOf 32 c.a))
+  | ⟨.bssDecFloat, _, run⟩ => ob (run (c.n, c.a))
+  | ⟨.bssEncDouble, _, run⟩ => .bytes (run (valsOf 64 c.a))
+  | ⟨.bssDecDouble, _, run⟩ => ob (run (c.n, c.a))
+  | ⟨.unpackBools, _, run⟩ => (match run (c.a, c.n) with | some v => .bytes v | none => .int (-1))
+  | ⟨.packBools, _, run⟩ => .bytes (run c.a)
+  | ⟨.findRunLength, _, run⟩ => .int (run (valsOf 32 c.a))
+  | ⟨.crc32c, _, run⟩ => .int (run (BitVec.ofInt 32 c.s1, c.a)).toNat
+  | ⟨.matchCopy, _, run⟩ => .bytes (run (c.a, c.n))
+  | ⟨.matchLength, _, run⟩ => .int (run (c.a, c.s1.toNat))
+  | ⟨.countNonNulls, _, run⟩ => .int (run (valsOf 16 c.a, BitVec.ofInt 16 c.s1))
+  | ⟨.buildNullBitmap, _, run⟩ => .bytes (run (valsOf 16 c.a, BitVec.ofInt 16 c.s1))
+  | ⟨.fillDefLevels, _, run⟩ => .bytes (bytesOf (run (List.replicate c.n 0#16, BitVec.ofInt 16 c.s1)))
 
 def slotOf (name : String) : Option Nat :=
   let n := match name with
@@ -205,7 +342,22 @@ def handleKernel (l : Line) (name : String) : Verdict :=
         match ev.impl (isaOf l slot v) with
         | some m => some (s!"{name}.{v}=impl", r == some m)
         | none => none
-      verdict model prop
+      -- the registry entry behind the variant (table slots only; `dispatch` = host table, not resolved here)
+      -- (evaluated on the `dm` lines and on the lines with an aligned source: the same function as `impl` above,
+      --  the point is the binding name -> model, which a fraction of the lines exercises amply)
+      let regLine := (l.inNat "cap").isSome || (l.inNat "sa").getD 0 == 0
+      let viaRegistry := results.filterMap fun (v, r) =>
+        if v == "dispatch" || !regLine then none else
+        match slot with
+        | none => none
+        | some _ =>
+          match registryEntry l slot v with
+          | some m => some (s!"{name}.{v}=registry[{m.name}]", r == some (evalEntry m c))
+          | none =>
+            -- avx2 double byte-stream split exists but is not in the table: no entry expected
+            if (name == "bss_encode_double" || name == "bss_decode_double") && v == "avx2" then none
+            else some (s!"{name}.{v}=registry[missing]", false)
+      verdict (model ++ viaRegistry) prop
   | _, _, _, _ => .bad "simd kernel args"
 
 def handleDispatch (l : Line) : Verdict :=
@@ -231,9 +383,84 @@ def handleCountBig (l : Line) : Verdict :=
     verdict [] [("scalar_counts_non_nulls", sc == want), ("sse_eq_scalar", se == want), ("dispatch_eq_scalar", di == want)]
   | _, _, _, _, _ => .bad "simd_count_big args"
 
+
+/-! gathers on indices with the top bit set (harness/ops_simd.c, step 2e) -/
+
+def gwK : Int := 16
+
+/-- the windows of the mapping the harness fills -/
+def gwIn (o : Int) : Bool :=
+  (0 ≤ o && o < gwK) || (2 ^ 31 - gwK ≤ o && o < 2 ^ 31 + gwK) || (2 ^ 32 - gwK ≤ o && o < 2 ^ 32) ||
+  (-(2 ^ 31) ≤ o && o < -(2 ^ 31) + gwK) || (-gwK ≤ o && o < 0)
+
+/-- `gw_mix`: the value stored at signed element offset `o` -/
+def gwMix (es : Nat) (o : Int) : Nat :=
+  let x := BitVec.ofInt 64 o * 0x9E3779B97F4A7C15#64 + 0x0123456789ABCDEF#64
+  if es == 4 then (x >>> 16).toNat % 2 ^ 32 else x.toNat
+
+def gwMem (w es : Nat) : Impl.Simd.DictMem (BitVec w) :=
+  fun o => if gwIn o then some (BitVec.ofNat w (gwMix es o)) else none
+
+open Impl.Simd in
+def gwModel (w es : Nat) (isa : String) (idx : List (BitVec 32)) : Option (Option (List (BitVec w))) :=
+  let mem := gwMem w es
+  match isa, es with
+  | "scalar", _ => some (scalarGather mem idx)
+  | "sse", 4 => some (sseGather32 mem idx)
+  | "sse", _ => some (sseGather64 mem idx)
+  | "avx2", 4 => some (avx2Gather32 mem idx)
+  | "avx2", _ => some (avx2Gather64 mem idx)
+  | "avx512", 4 => some (avx512Gather32 mem idx)
+  | "avx512", _ => some (avx512Gather64 mem idx)
+  | _, _ => none
+
+def handleGatherWide (l : Line) : Verdict :=
+  match l.inStr "name", l.inNat "es", l.inNat "dom", l.inNat "cpu", l.inHex "idx" with
+  | some name, some es, some dom, some cpu, some idxb =>
+    let idx := valsOf 32 idxb
+    let slot := Gen.Dispatch.slots.idxOf? name
+    let variants := ["scalar", "sse", "avx2", "avx512", "dispatch"]
+    let isaOfV (v : String) : String :=
+      if v == "dispatch" then
+        match slot with
+        | some s => (match Impl.Dispatch.selectedRank cpu s with | some r => rankName r | none => "unknown")
+        | none => "unknown"
+      else v
+    let got := variants.map fun v => (v, l.outHex ("r_" ++ v))
+    if got.any (fun g => g.2.isNone) then .bad "simd_gather_wide result fields" else
+    let model := got.filterMap fun (v, r) =>
+      if es == 4 then
+        (gwModel 32 4 (isaOfV v) idx).map fun m => (s!"{name}.{v}=impl", m.map bytesOf == r)
+      else
+        (gwModel 64 8 (isaOfV v) idx).map fun m => (s!"{name}.{v}=impl", m.map bytesOf == r)
+    -- the scalar definition: dict[idx[i]] with the zero-extended index
+    let want : List UInt8 :=
+      if es == 4 then bytesOf (idx.map fun i => BitVec.ofNat 32 (gwMix 4 (Int.ofNat i.toNat)))
+      else bytesOf (idx.map fun i => BitVec.ofNat 64 (gwMix 8 (Int.ofNat i.toNat)))
+    let prop := if dom == 1 then got.map fun (v, r) => (s!"{name}.{v}=spec", r == some want) else []
+    verdict (("all_variants_modelled", model.length == variants.length) :: model) prop
+  | _, _, _, _, _ => .bad "simd_gather_wide args"
+
+def natList (s : String) : List Nat := (s.splitOn ",").filterMap (·.toNat?)
+
+/-- what the run covered per kernel and block width; every count has to be positive -/
+def handleCoverage (l : Line) : Verdict :=
+  match l.inStr "name", l.inStr "widths", l.outStr "full", l.outStr "tail", l.outStr "multi", l.outNat "maxn", l.outNat "mis" with
+  | some name, some ws, some f, some t, some m, some maxn, some mis =>
+    let w := natList ws
+    let chk (tag : String) (xs : List Nat) := (s!"{name}.{tag}", xs.length == w.length && xs.all (· > 0))
+    let mc := match l.outStr "mc" with
+      | some s => [(s!"{name}.offset_classes", (natList s).length == 6 && (natList s).all (· > 0))]
+      | none => []
+    verdict ([chk "count=k*W" (natList f), chk "count=k*W+r" (natList t), chk "count>=2W" (natList m),
+              (s!"{name}.beyond_widest_block", maxn > 2 * w.foldl max 0), (s!"{name}.misalignments", mis ≥ 7)] ++ mc) []
+  | _, _, _, _, _, _, _ => .bad "simd_coverage args"
+
 def handle (l : Line) : Option Verdict :=
   if l.op == "simd_dispatch" then some (handleDispatch l)
   else if l.op == "simd_count_big" then some (handleCountBig l)
+  else if l.op == "simd_gather_wide" then some (handleGatherWide l)
+  else if l.op == "simd_coverage" then some (handleCoverage l)
   else if l.op.startsWith "simd_" then some (handleKernel l (l.op.drop 5).toString)
   else none
 
